@@ -202,6 +202,18 @@ theorem C10_timeline (cs : List Ceremony) (a : Response) (hpol : AllTimeline cs)
           exact step_neighbour c.ext { c.args with prev := some (.ok a) } c.tok {} a req skr rfl hk
             (hpol c (List.mem_cons_self) req hk) rfl hwr
 
+/-- the previous SKR named on the command line is the one used, whatever the configuration names -/
+theorem cli_previous_skr_wins (f : String) (cfg : Option String) (h : f ≠ "") :
+    pickFile (some f) cfg = some f := by
+  have : f.isEmpty = false := by
+    cases hf : f.isEmpty with
+    | false => rfl
+    | true => exact absurd (String.isEmpty_iff.mp hf) h
+  simp [pickFile, this]
+
+theorem cfg_previous_skr_fallback (cfg : Option String) : pickFile none cfg = cfg ∧ pickFile (some "") cfg = cfg := by
+  constructor <;> simp [pickFile]
+
 /-- a refused ceremony changes nothing for its successors -/
 theorem refused_is_transparent (c : Ceremony) (rest : List Ceremony) (prev : Option Response)
     (h : written c prev = none) : history prev (c :: rest) = history prev rest := by
